@@ -4,10 +4,10 @@ namespace BiotiteModel.Gen.C17
 def residueFields : List String := ["chain_id", "res_id", "ins_code", "res_name"]
 /-- operands of the mask union in `get_chain_starts` (`diff:<annotation>:<op>:<bound>` for the np.diff test). -/
 def chainTerms : List String := ["diff:res_id:Lt:0", "chain_id"]
-/-- value returned for an empty array by get_residue_starts / get_chain_starts. -/
-def emptyReturns : List String := ["np.array([0] if add_exclusive_stop else [], dtype=int)", "np.array([0] if add_exclusive_stop else [], dtype=int)"]
+/-- (without, with exclusive stop) returned for an empty array by get_residue_starts / get_chain_starts. -/
+def emptyReturns : List (List Nat × List Nat) := [([], [0]), ([], [0])]
 /-- (function, side of np.searchsorted, subtracted constant). -/
 def searchSides : List (String × String × String) := [("get_segment_masks", "right", "1"), ("get_segment_starts_for", "right", "1"), ("get_segment_positions", "right", "1")]
 /-- index guards: (function, [(condition, exception)]). -/
-def guards : List (String × List (String × String)) := [("get_segment_masks", [("(indices < 0).any()", "ValueError"), ("(indices >= length).any()", "ValueError")]), ("get_segment_starts_for", [("(indices < 0).any()", "ValueError"), ("(indices >= length).any()", "ValueError")]), ("get_segment_positions", [("(indices < 0).any()", "ValueError"), ("(indices >= length).any()", "ValueError")])]
+def guards : List (String × List (String × String)) := [("get_segment_masks", [("Lt 0", "ValueError"), ("GtE starts[-1]", "ValueError")]), ("get_segment_starts_for", [("Lt 0", "ValueError"), ("GtE starts[-1]", "ValueError")]), ("get_segment_positions", [("Lt 0", "ValueError"), ("GtE starts[-1]", "ValueError")])]
 end BiotiteModel.Gen.C17
